@@ -192,7 +192,8 @@ fn f4_signature(want: &Tbl, got: &Tbl) -> bool {
 }
 
 fn prop(t: &mut Tape, st: &mut Stats) -> Result<(), Failure> {
-    match t.below(17) {
+    match t.below(19) {
+        17 | 18 => check_value("Attrs", &g_attrs(t), st),
         0 => check_value("Scalars", &g_scalars(t), st),
         1 => check_value("Opts", &g_opts(t), st),
         2 | 3 => check_value("Seqs", &g_seqs(t), st),
